@@ -101,6 +101,7 @@ props["C08"]["manifest"] = {
 }
 
 props["C06"] = {
+    "model_oracle_prefixes": ["c06 "],
     "harness": "c06",
     "level": "proof",
     "tables": ["roles"],
